@@ -1307,7 +1307,10 @@ func (h *hist) finishCallbacksAt(recs []*cbRec, ordered bool, from int) {
 				if persist, _ := rfcPersists(r); !persist && h.cliEpoll == "lt" && burst+r.sz > ltBurstCap {
 					class = " class=lt-burst-close"
 				}
-				h.fail(false, "c10-client-callback", "lost-response%s: callback of request %d got error %q although the server answered it on a healthy loopback connection (timeout0=%v, client epoll=%s, burst=%d)",
+				// reported only if it happens again when the case is re-run: rare transport-level races (e.g. a stale epoll
+				// event of a closed connection hitting the connection that reuses its descriptor number) also end an
+				// exchange with an error, which the property allows; the deterministic causes survive the re-runs
+				h.fail(true, "c10-client-callback", "lost-response%s: callback of request %d got error %q although the server answered it on a healthy loopback connection (timeout0=%v, client epoll=%s, burst=%d)",
 					class, r.rid, rec.err.Error(), h.to0, h.cliEpoll, burst+r.sz)
 			}
 		}
@@ -1736,6 +1739,14 @@ func runCase(e *lp.Exec, lines []string) {
 			break
 		}
 		e.Count("retries", "case")
+		for _, h := range c.order {
+			for _, f := range h.fails {
+				w := strings.Fields(f)
+				if len(w) > 3 {
+					e.Count("transient", w[0]+" "+w[3]) // oracle name + first word of the report
+				}
+			}
+		}
 		time.Sleep(300 * time.Millisecond)
 	}
 	// print
@@ -1825,7 +1836,11 @@ func stripGot(line string) string {
 
 type quietLogger struct{}
 
-func (quietLogger) Debug(string, ...interface{}) {}
+func (quietLogger) Debug(f string, v ...interface{}) {
+	if os.Getenv("HE2E_LOG") == "2" {
+		fmt.Fprintf(os.Stderr, "nbio debug: "+f+"\n", v...)
+	}
+}
 func (quietLogger) Info(string, ...interface{})  {}
 func (quietLogger) Warn(string, ...interface{})  {}
 func (quietLogger) Error(f string, v ...interface{}) {
